@@ -277,7 +277,20 @@ def run(tier, seed):
     plan = [(w, ALPHA, depth) for w in worlds(tier)]
     plan.append((corner("unit8", name="virtual-g+l", reusable=True, qubits=2,
                         prefix=[("declare", "g", "rydberg_global"), ("declare", "l", "raman_local")]), ALPHA, depth))
+    # the same root already PARAMETRIZED (a variable was used before anything else happens): every later call is only stored, and the
+    # modes the calls depend on (EOM on / off, measured, ...) have to be followed through the stored calls
+    pplan = [(corner("unit8", name="virtual-g+l-already-parametrized", reusable=True, qubits=2,
+                     prefix=[("declare", "g", "rydberg_global"), ("declare", "l", "raman_local"), ("declare_var", "x"), ("delay_v", "x", "g")]),
+              [op for op in ALPHA if op[0] not in ("ro",)], 2 if tier == "quick" else 3)]
     cov = seqx.run_plan(res, plan, MONITORS, infos=infos)
+    # states of a parametrized sequence differ only in their stored calls: keyed on the call log
+    pres = Result("model_checking")
+    pcov = seqx.run_plan(pres, pplan, MONITORS, with_calls=True, key_calls=True, infos=infos)
+    res.violations += pres.violations
+    for k, v in pres.activations.items():
+        res.activations[k] = res.activations.get(k, 0) + v
+    cov["states"] += pcov["states"]
+    cov["transitions"] += pcov["transitions"]
     cov["concrete_states"] = cov["states"]
     cov["concrete_transitions"] = cov["transitions"]
     cov["abstract_modes_seen_concretely"] = mode_only(res, infos)
